@@ -186,6 +186,7 @@ CLASS_FILE = {
     "PositionalSporadicDissimilarity": "pygamma_agreement/dissimilarity.py",
     "CategoricalDissimilarity": "pygamma_agreement/dissimilarity.py",
     "AbsoluteCategoricalDissimilarity": "pygamma_agreement/dissimilarity.py",
+    "PrecomputedCategoricalDissimilarity": "pygamma_agreement/dissimilarity.py",
     "Continuum": "pygamma_agreement/continuum.py", "Unit": "pygamma_agreement/continuum.py",
     "GammaResults": "pygamma_agreement/continuum.py",
     "UnitaryAlignment": "pygamma_agreement/alignment.py", "Alignment": "pygamma_agreement/alignment.py",
@@ -382,7 +383,8 @@ CLASS_BASES = {"SoftAlignment": ["Alignment"],
                "CombinedCategoricalDissimilarity": ["AbstractDissimilarity"],
                "PositionalSporadicDissimilarity": ["AbstractDissimilarity"],
                "AbsoluteCategoricalDissimilarity": ["CategoricalDissimilarity", "AbstractDissimilarity"],
-               "CategoricalDissimilarity": ["AbstractDissimilarity"]}
+               "CategoricalDissimilarity": ["AbstractDissimilarity"],
+               "PrecomputedCategoricalDissimilarity": ["CategoricalDissimilarity", "AbstractDissimilarity"]}
 def register_class(name, relfile, bases=()):
     CLASS_FILE[name] = relfile
     if bases:
